@@ -14,6 +14,11 @@ CHECKS = {
         text="TLC proves algorithm == documented rules (EquivRef), never-escapes and guard termination for every pair of hook tables within the stated bounds; thousands of table sets (curated + seeded random) are run through the same spec and replayed through unwrap_stackitem/elaborate_frame registrations on real frames, comparing frames, leaf, errors and extract_outermost with the spec's terminal state",
         note="bounded tables (quick: 2 frames/2 wrappers/1 leaf exhaustively, 3/3/1 by given tables); deterministic hooks; TLC and the JSON bridge are trusted",
         ref="3.1, 4 C10"),
+    "C04": dict(
+        technique="TLA+ spec of StackSlice semantics (RefSlice) and operator-by-operator transcription of unwrap_stackslice (AlgSlice) in Slice.tla; TLC checks equality for every real stack shape x (outer, inner, limit); every query replayed at the innermost frame of real stacks",
+        text="shapes are measured on the stacks the harness really builds (1..3 nested greenlets; plain, running-generator and running-coroutine levels; thread bootstrap frames), TLC enumerates all queries for them, and the real extraction must return exactly the frames RefSlice names (identity), with no stackscope frames, root None, and the extract_since / extract_until wrappers agreeing",
+        note="outer <= inner; greenlet segments only on 3.12; other-thread search (observation O2) not claimed",
+        ref="3.7, 4 C04"),
     "C05": dict(
         technique="TLC on ExtractIter with raising hook-table entries; given-table replay with fault-free siblings; k-th-call fault injection on real scenarios with TLC trace validation of the faulty runs",
         text="exhaustive over all tables with <= 2 raising entries on the model (never escapes, every fault recorded, hook-raising frame kept un-hidden, result == documented rules); thousands of faulty table sets replayed on the real hooks under 3.9-3.12 comparing the error list tag by tag; every hook call of a corpus of real scenarios made to raise in turn, injected exception located in the Stack tree, recorded traces accepted by ExtractIterTrace",
